@@ -90,6 +90,8 @@ static PDU* extra(int id, vh::Rng& rng, Entry& e) {
 
 static void scenario(const vh::Json& sc, vh::Out& out, vh::Rng& rng, const vh::Args&) {
     int id = (int)sc["id"].num(); Entry e;
+    const vh::Rng rng0 = rng;
+    dirty_stack(0xA5);
     std::unique_ptr<PDU> p(id < 100 ? catalogue(id, rng, e) : extra(id, rng, e));
     if (!p) throw std::runtime_error("no such composition");
     // input class of ICMP / ICMPv6 error messages (for the signatures of known findings): is the RFC 4884 length attribute
@@ -119,6 +121,10 @@ static void scenario(const vh::Json& sc, vh::Out& out, vh::Rng& rng, const vh::A
     // garbage before each step, so that a member the implicit copy does not carry (padding in a header struct) shows
     bool clone_same = false; try { dirty_stack(0xA5); std::unique_ptr<PDU> c(p->clone()); dirty_stack(0x5A); Bytes cb = c->serialize(); dirty_stack(0x3C); clone_same = cb == b; } catch (std::exception&) {}
     w.kv("clone_same", clone_same);
+    // the same composition built a second time from the same values over a differently filled stack: operator/ and clone()
+    // make copies of the layers; if a copy did not equal its source the two results would differ
+    bool rebuild_same = false; try { vh::Rng r2 = rng0; Entry e2; dirty_stack(0x5A); std::unique_ptr<PDU> p2(id < 100 ? catalogue(id, r2, e2) : extra(id, r2, e2)); rebuild_same = p2 && p2->serialize() == b; } catch (std::exception&) {}
+    w.kv("rebuild_same", rebuild_same);
     w.kv("thrown", thrown).kbytes("bytes", b).E(); out.event(w); out.end();
 }
 int main(int argc, char** argv) { return vh::run(argc, argv, scenario); }
